@@ -10,6 +10,9 @@ from ..core import same, HarnessError
 ID = 'C18'
 TITLE = 'decorators are transparent; getcallargs; cache; try_*; kwargs_support'
 LEVEL = 'exploration'
+TECHNIQUE = 'runtime monitoring: stdlib inspect and the direct call as reference; generated functions record every evaluation (call recorder); cache call-sequence histories'
+LEVEL_TEXT = 'All 60 signatures x every positional/keyword split x sampled stacks of <=3 decorators (thorough: many more stacks). A check says held on K observed executions, never verified.'
+LEVEL_NOTE = 'Trusted: inspect.getfullargspec/getcallargs. One known finding (kwargs_support on **kwargs functions) is reported as KNOWN-FINDING.'
 RULE = ('every signature with 0-4 positional parameters x 0..k trailing defaults x +-*args x +-**kwargs (60 signatures), every split of a valid argument set between positional and keyword '
         'passing (+ extra *args / **kwargs where accepted), stacks of <=3 decorators from {try_none, try_zero, try_nan, try_true, try_false, try_list, try_back, kwargs_support, cache, loop(list), pd2np}; '
         'cache histories: random call sequences over a pool of hashable argument combinations; non-trivial = a call passing >=1 argument by keyword through a stack of >=2 decorators, or a cache history '
